@@ -395,13 +395,48 @@ func (e *Engine) oblige(st *State, kind, goal, pos, desc string, tags []string) 
 			name = fmt.Sprintf("%s@%d", kind, e.ordinals[key])
 		}
 	}
-	o := &Obligation{Name: e.topName + "/" + name, Func: e.topName, Kind: kind, Mark: e.ctx.Mark(), PC: st.pc, Goal: goal, Pos: pos, Desc: desc, ctx: e.ctx}
-	o.Tags = append(o.Tags, tags...)
-	if len(o.Tags) == 0 {
-		o.Tags = append(o.Tags, e.tags...)
+	parts := splitAnd(goal)
+	var last *Obligation
+	for i, g := range parts {
+		n := name
+		if len(parts) > 1 {
+			n = fmt.Sprintf("%s#%d", name, i+1)
+		}
+		o := &Obligation{Name: e.topName + "/" + n, Func: e.topName, Kind: kind, Mark: e.ctx.Mark(), PC: st.pc, Goal: g, Pos: pos, Desc: desc, ctx: e.ctx}
+		o.Tags = append(o.Tags, tags...)
+		if len(o.Tags) == 0 {
+			o.Tags = append(o.Tags, e.tags...)
+		}
+		e.obs = append(e.obs, o)
+		last = o
 	}
-	e.obs = append(e.obs, o)
-	return o
+	return last
+}
+
+// splitAnd flattens a top-level conjunction into its conjuncts.
+func splitAnd(t string) []string {
+	if !strings.HasPrefix(t, "(and ") {
+		return []string{t}
+	}
+	var out []string
+	body := t[5 : len(t)-1]
+	d, start := 0, 0
+	for i := 0; i <= len(body); i++ {
+		if i == len(body) || (body[i] == ' ' && d == 0) {
+			if i > start {
+				out = append(out, splitAnd(body[start:i])...)
+			}
+			start = i + 1
+			continue
+		}
+		switch body[i] {
+		case '(':
+			d++
+		case ')':
+			d--
+		}
+	}
+	return out
 }
 
 func (e *Engine) posOf(fr *Frame, p token.Pos) string {
